@@ -68,6 +68,10 @@ def gen_case(rnd, thorough):
             new = [[cell(rnd, t) for _, t in cur_cols] for _ in idx]
             if rnd.random() < 0.1:
                 new = new[:-1] if len(new) > 1 else new + new
+            elif len(new) > 1 and rnd.random() < 0.12:
+                # valid rows first, a LATER row with one cell too many / too few: nothing may be written
+                j = rnd.randint(1, len(new) - 1)
+                new[j] = new[j] + [new[j][-1]] if rnd.random() < 0.5 or len(new[j]) == 1 else new[j][:-1]
             ops.append(["write_rows", new, idx])
         elif r < 0.68:
             rr = rnd.randint(0, cur_n) if rnd.random() < 0.9 else cur_n + 3
@@ -315,7 +319,7 @@ def run(ctx):
         "rule": "schemas of 1-6 columns over int64/float64/bool/text/int8/uint16 with names from a 10-name pool (non-ASCII, blank), "
                 "0-8 initial rows, four creation variants (col_dict, names+dtypes, names+data, structured array); ops: append_rows "
                 "(incl. wrong length), append_column (incl. duplicate name, wrong length), write_rows (sorted indices, out of range, "
-                "count mismatch), re-creation under the same name (must be refused, identity kept), write_cell by position and by name (first/last/out of range/unknown), write_column by index (0 "
+                "count mismatch, a later row of another length), re-creation under the same name (must be refused, identity kept), write_cell by position and by name (first/last/out of range/unknown), write_column by index (0 "
                 "included) and by name, reopen; after every op the whole table, names, types, counts and four read paths are "
                 "compared with the model.",
         "disagreements": len(disagreements), "spec_failures": len(failures),
